@@ -22,6 +22,12 @@ static size_t make_source(int kind, size_t n, u8* p) {
     case 1: for (size_t i = 0; i < n; i++) p[i] = (u8)("abcdefgh"[i & 7]); for (size_t i = 50; i < n; i += 211) p[i] = (u8)(i >> 3); break;     /* repcode heavy */
     case 2: fill_noise(p, n, 5); for (size_t i = 300; i + 40 < n; i += 700) memcpy(p + i, p + i - 257, 40); break;                          /* sparse matches */
     case 3: fill_text(p, n, 9); for (size_t i = 1000; i + 600 < n; i += 1500) memcpy(p + i, p + i - 999, 600); break;                      /* long matches crossing edges */
+    case 6: case 7: case 8: case 9: {   /* long-length family (--big 2): 128 KiB of period-1000 data (leaves repcode 1000), then exactly L fresh bytes, then the period resumes:
+                  * a sequence with literal length L in {65535, 65536, 65537, 65538} (around the 16-bit long-length escape) whose match is a repcode */
+        static const size_t LL[] = {65535, 65536, 65537, 65538}; size_t L = LL[kind - 6], B = 128u << 10;
+        fill_noise(p, 1000, 21); for (size_t i = 1000; i < B; i++) p[i] = p[i - 1000];
+        fill_noise(p + B, L, 22); for (size_t i = B + L; i < n; i++) p[i] = p[i - 1000];
+        break; }
     default: {   /* kinds 4, 5: every other block-size stretch is a run of one byte (a block the compressor may emit as RLE), between stretches that keep
                   * re-using the same few offsets (kind 4: period 8 with sparse changes; kind 5: text with copies at distance 257) */
         size_t B = n > (200u << 10) ? (128u << 10) : 1024;
@@ -71,9 +77,10 @@ static size_t producer_fn(void* st, ZSTD_Sequence* out, size_t cap, const void* 
 }
 
 static void body(void) {
-    int kind = vx_choose(6), delim = vx_choose(2), repSearch = vx_choose(3), dictMode = vx_choose(3), minMatch = 3 + vx_choose(5), variant = vx_choose(7);
+    int kind = vx_choose(g_big == 2 ? 4 : 6), delim = vx_choose(2), repSearch = vx_choose(3), dictMode = vx_choose(g_big == 2 ? 1 : 3), minMatch = (g_big == 2 ? 5 : 3) + vx_choose(g_big == 2 ? 3 : 5), variant = vx_choose(7);
+    if (g_big == 2) { kind += 6; if (!(variant == 0 || variant == 5 || variant == 6)) { vx_obs_u64(16); return; } }
     size_t B = g_big ? (128u << 10) : 1024;              /* block size in force */
-    size_t n = g_big ? (2 * B + 4321) : (4 * B + 333);
+    size_t n = g_big == 2 ? (B + 65538 + 65536 + 300) : g_big ? (2 * B + 4321) : (4 * B + 333);
     size_t W = g_big ? (1u << 18) : 2048; int wlog = g_big ? 18 : 11;
     size_t dictLen = dictMode ? DICTLEN : 0;
     fill_text(g_buf, DICTLEN, 77);
@@ -88,6 +95,7 @@ static void body(void) {
         /* the library's own extracted sequences (with delimiters), optionally merged */
         ZSTD_CCtx* g = ZSTD_createCCtx(); ZSTD_CCtx_setParameter(g, ZSTD_c_compressionLevel, kind == 2 ? 1 : 5); ZSTD_CCtx_setParameter(g, ZSTD_c_windowLog, wlog);
         if (!g_big) ZSTD_CCtx_setParameter(g, ZSTD_c_maxBlockSize, (int)B);
+        if (g_big == 2) { ZSTD_CCtx_setParameter(g, ZSTD_c_minMatch, minMatch); ZSTD_CCtx_setParameter(g, ZSTD_c_compressionLevel, repSearch == 0 ? 5 : repSearch == 1 ? 13 : 16); }   /* no chance matches inside the fresh bytes; greedy, btlazy2 and btopt parsers */
         ns = ZSTD_generateSequences(g, g_seq, MAXSEQ, src, n); ZSTD_freeCCtx(g);
         if (ZSTD_isError(ns)) { vx_obs_u64(11); return; }        /* documented as allowed to give up */
         if (variant == 6) { ns = ZSTD_mergeBlockDelimiters(g_seq, ns); if (delim) { vx_obs_u64(12); return; } }
